@@ -126,18 +126,10 @@ pub mod shelley_ma_tests {
         k(&metx, &utxos, &env, &mut cert_state);
     }
     pub fn successful_mainnet_shelley_tx_with_changed_script(cbor_bytes: &[u8], k: &mut dyn FnMut(&MultiEraTx, &UTxOs, &Environment, &mut CertState)) {
-        let mut mtx: Tx = minted_tx_from_cbor(&cbor_bytes);
-        // Delete one VKey witness.
-        let mut tx_wits: WitnessSet = mtx.transaction_witness_set.unwrap().clone();
-        let wit: VKeyWitness = tx_wits.vkeywitness.unwrap().remove(1);
-        tx_wits.vkeywitness = Some(Vec::from([wit]));
-        let mut tx_buf: Vec<u8> = Vec::new();
-        match encode(tx_wits, &mut tx_buf) {
-            Ok(_) => (),
-            Err(err) => panic!("Unable to encode Tx ({err:?})"),
-        };
-        mtx.transaction_witness_set =
-            Decode::decode(&mut Decoder::new(tx_buf.as_slice()), &mut ()).unwrap();
+        // (the deletion of one VKey witness that the original test does on the decoded
+        // transaction is done on the bytes by val_common::load_tx, so that the bytes the
+        // harness measures are the transaction that is validated)
+        let mtx: Tx = minted_tx_from_cbor(&cbor_bytes);
         let metx: MultiEraTx = MultiEraTx::from_alonzo_compatible(&mtx, Era::Shelley);
         let utxos: UTxOs = mk_utxo_for_alonzo_compatible_tx(
             &mtx.transaction_body,
